@@ -43,7 +43,13 @@ def reuse_stage(tier_, key):
             if tier_ == "thorough":
                 cfgs.append(corpus.cfg(P))
                 cfgs.append(corpus.cfg(P, 10, 40, muts=corpus.MUTS, rate=1.0, unsafe=True))
-        spec = {"cfgs": cfgs, "seed": rng.getrandbits(40), "x": [rng.randrange(256) for _ in range(rng.randrange(1, 200))],
+        maxlens = [4 if tier_ == "quick" else 5] * len(cfgs)
+        # mutators are objects owned by the generator: anything they remember between calls shows up here
+        for P in ((1, 4) if tier_ == "quick" else range(6)):
+            for ms in [[m] for m in corpus.MUTS[:6]] + [["memoindex", "offbyone"], ["character", "stringlen"]]:
+                cfgs.append(corpus.cfg(P, 40, 120, muts=ms, rate=1.0)); maxlens.append(3)
+                cfgs.append(corpus.cfg(P, 40, 120, muts=ms, rate=0.6)); maxlens.append(3)
+        spec = {"cfgs": cfgs, "maxlens": maxlens, "seed": rng.getrandbits(40), "x": [rng.randrange(256) for _ in range(rng.randrange(1, 200))],
                 "y": [rng.randrange(256) for _ in range(rng.randrange(200, 900))], "maxlen": 4 if tier_ == "quick" else 5}
         spec["x"][0] |= 1; spec["y"][0] &= 0xFE        # first draw (frame coin for protocols 4/5) differs between x and y
         sf = os.path.join(d, "reuse_spec.json"); json.dump(spec, open(sf, "w"))
@@ -54,9 +60,9 @@ def reuse_stage(tier_, key):
         nseq = sum(1 for l in lines if l["t"] == "seq")
         return {"findings": split_findings(findings, lines), "spec": {k: spec[k] for k in ("seed", "maxlen")},
                 "coverage": {"configurations": len(cfgs), "call_sequences": nseq, "calls": sum(len(l["seq"]) for l in lines),
-                             "max_sequence_length": spec["maxlen"], "tlc_states": states, "exhaustive": True,
+                             "max_sequence_length": max(maxlens), "tlc_states": states, "exhaustive": True,
                              "alphabet": "generate(), generate_from_arbitrary(x), generate_from_arbitrary(y), reset()"},
-                "samples": [l for l in lines if l["t"] == "seq" and len(l["seq"]) == spec["maxlen"]][:2]}
+                "samples": [l for l in lines if l["t"] == "seq" and len(l["seq"]) >= 3][:2]}
     return cached(key, "reuse_%s_%d" % (tier_, seed()), compute)
 
 # ---------------------------------------------------------------- CLI / python builds (C07d, C13)
